@@ -251,6 +251,85 @@ def run_shard(spec, tier, seed):
                 V(f"numpy-slice-assignment-raises rhs-names={label} flavor={'momentum' if mom else 'generic'}", exc=f"{type(e).__name__}: {e}"[:200])
             res.cell("numpy-slice-assignment:" + label, "momentum" if mom else "generic", sn)
 
+    # ---------------------------------------------------------------- structured arrays whose memory layout is not the
+    # field order (explicit offsets, padding, mixed item sizes, multi-field selections): the same bytes spelled with
+    # geometric and with momentum field names must read the same through every accessor and constructor
+    if has_mom_names:
+        gn = list(R.field_names(system))
+        k = len(gn)
+
+        def layouts(names):
+            wide = numpy.dtype([("pad0", numpy.int8)] + [(nm, numpy.float64) for nm in reversed(names)] + [("tail", numpy.int16)])
+            return {
+                "packed": numpy.dtype([(nm, numpy.float64) for nm in names]),
+                "reversed-offsets": numpy.dtype({"names": list(names), "formats": [numpy.float64] * k, "offsets": [8 * (k - 1 - i) for i in range(k)]}),
+                "rotated-offsets": numpy.dtype({"names": list(names), "formats": [numpy.float64] * k, "offsets": [8 * ((i + 1) % k) for i in range(k)]}),
+                "padded": numpy.dtype({"names": list(names), "formats": [numpy.float64] * k, "offsets": [16 * i + 8 for i in range(k)], "itemsize": 16 * k + 8}),
+                "mixed-sizes-aligned": numpy.dtype([(nm, numpy.float32 if i % 2 else numpy.float64) for i, nm in enumerate(names)], align=True),
+                "multi-field-selection": wide,
+            }
+
+        def fill(dt, names, select):
+            src = numpy.zeros(n, dtype=dt)
+            for i, nm in enumerate(names):
+                src[nm] = [row[i] for row in rows]
+            return src[list(names)] if select else src
+
+        for sp in range(3):
+            sn_ = B.names_for(system, True, sp)
+            if sp and sn_ == B.names_for(system, True, 0):
+                continue
+            for lname in layouts(gn):
+                sel = lname == "multi-field-selection"
+                for form in ("vector.array", "view(cls)", "cls(...)"):
+                    res.evaluations += 1
+                    outs = []
+                    for names, mom in ((gn, False), (sn_, True)):
+                        try:
+                            # a fresh dtype object per construction (viewing as a momentum class renames the fields of
+                            # the dtype object it is given: C16's known finding, not this property's subject)
+                            src = fill(layouts(names)[lname], names, sel)
+                            if form == "vector.array":
+                                out = vector.array(src)
+                            else:
+                                cls = getattr(vector, ("MomentumNumpy" if mom else "VectorNumpy") + f"{dim}D")
+                                out = src.view(cls) if form == "view(cls)" else cls(src)
+                            vals = {}
+                            for i, g_ in enumerate(gn):
+                                vals[g_] = numpy.asarray(getattr(out, g_)).astype(numpy.float64).tobytes()
+                                vals["field:" + g_] = numpy.asarray(out[names[i]]).astype(numpy.float64).tobytes()
+                            if mom:
+                                for i, g_ in enumerate(gn):
+                                    if names[i] != g_:
+                                        vals[g_ + "(synonym)"] = numpy.asarray(getattr(out, names[i])).astype(numpy.float64).tobytes()
+                            vals["derived:rho"] = numpy.asarray(out.rho).astype(numpy.float64).tobytes()
+                            outs.append(vals)
+                        except Exception as e:
+                            outs.append(e)
+                    g, m = outs
+                    mech_tail = f"layout={lname} form={form}"
+                    if isinstance(g, Exception) or isinstance(m, Exception):
+                        if isinstance(g, Exception) != isinstance(m, Exception):
+                            V(f"momentum-named-array-layout-raises-where-geometric-names-work {mech_tail}" if isinstance(m, Exception)
+                              else f"geometric-named-array-layout-raises-where-momentum-names-work {mech_tail}",
+                              names=sn_, generic=repr(g)[:160], momentum=repr(m)[:160])
+                        else:
+                            res.count("layout_rejected_in_both_spellings:" + lname)
+                        continue
+                    expected_first = numpy.array([numpy.float32(row[0]) if False else row[0] for row in rows], dtype=numpy.float64).tobytes()
+                    for key in g:
+                        if g[key] != m[key]:
+                            V(f"momentum-named-array-gives-different-numbers-for-a-layout {mech_tail}", names=sn_, accessor=key)
+                            break
+                    else:
+                        for i, g_ in enumerate(gn):
+                            if names[i] != g_ and m.get(g_ + "(synonym)") != m[g_]:
+                                V(f"synonym-accessor-differs-for-a-layout {mech_tail}", names=sn_, accessor=names[i])
+                                break
+                        if g[gn[0]] != expected_first and lname != "mixed-sizes-aligned":
+                            V(f"array-layout-read-back-wrong {mech_tail}", names=gn)
+                    res.cell("layout-twin:" + lname, form, sn, str(sp))
+
     # ---------------------------------------------------------------- flavor twins: the flavor never changes any number
     for op in C.ops_for(dim, False):
         odims = op.other_dims(dim) if op.other_dims else (None,)
